@@ -46,7 +46,7 @@ P = {
              text='One ragged array per run over value dtype x index type x atom rank 0-3 x subarray counts/lengths incl. 0 (and arrays without values), optionally after append/truncate; numpymemmap and darr snippets executed for real for every k plus the example statement; the 7 other languages interpreted by stubs for every k under their index origin, end inclusiveness and axis order; example must bind the stated existing subarray; withholding checked against the docs tables with the R int64-index allowance; running code changes no file.',
              note='as C06', ref='5 C07, App. B'),
  'C12': dict(cat='exploration', tech=TECH + '; hold list re-verified after every later operation; fork per run so death by signal is observed',
-             text='Index expressions from a grammar (ints, slices with steps, Ellipsis, None, tuples, integer arrays, boolean masks incl. wrong length, non-index objects) read and assigned inside/outside open_array() contexts on rank 1-4 arrays incl. 0-row and multi-MB ones; results equal NumPy on the model or raise the same class; NumPy integer scalars as indices; open_array(accessmode='r+') on a read-only object; an invalid access mode refused without leaving anything open; iterations left early; every returned value is held and re-verified after every later append/assignment/truncate/delete; assignments are visible to a fresh handle and in the raw file; no descriptor or map is left open after any operation.',
+             text='Index expressions from a grammar (ints, slices with steps, Ellipsis, None, tuples, integer arrays, boolean masks incl. wrong length, non-index objects) read and assigned inside/outside open_array() contexts on rank 1-4 arrays incl. 0-row and multi-MB ones; results equal NumPy on the model or raise the same class; NumPy integer scalars as indices; open_array(accessmode=r+) on a read-only object; an invalid access mode refused without leaving anything open; iterations left early; every returned value is held and re-verified after every later append/assignment/truncate/delete; assignments are visible to a fresh handle and in the raw file; no descriptor or map is left open after any operation.',
              note='NumPy indexing on an in-memory copy as reference; /proc/self/fd and /proc/self/maps as leak oracle', ref='5 C12'),
  'C14': dict(cat='exploration', tech='saturating enumeration of the small frame-parameter space plus seeded single-generator schedules with interleaved writes (partly degenerate: the arithmetic clauses are a pure function)',
              text='Runs 0-13 enumerate every (chunklen, stepsize, start, end, remainder) for n<=12 for iterindices (and a slice of it for iterchunks) and fit_frames for totallen<=16 against a reference written from the statement; further runs: one iterchunks generator with writes between next() calls, early close/abandon, held chunks re-verified, leak check; invalid parameter combinations and floats must raise ValueError; large values.',
